@@ -58,5 +58,7 @@ for d in sorted(glob.glob(os.path.join(ROOT, "seeded", "*"))):
     meta["detected_by_check"] = res
     json.dump(meta, open(mp, "w"), indent=1)
     rows.append((name, pid, res[:200]))
+# the runs above regenerated Generated/*.lean from mutated trees: put the committed files back
+sh("git checkout -- lean/PhysisModel/Generated", cwd=ROOT)
 for r in rows:
     print("%-10s %-4s %s" % r)
